@@ -165,6 +165,8 @@ pub struct Session {
     pub stop: AtomicBool,
     pub inconclusive: Mutex<Vec<String>>,
     pub start: std::time::Instant,
+    /// shrink budget of the random stages (lower it for expensive cases)
+    pub shrink_iters: std::sync::atomic::AtomicU32,
 }
 
 impl Session {
@@ -185,6 +187,7 @@ impl Session {
             stop: AtomicBool::new(false),
             inconclusive: Mutex::new(vec![]),
             start: std::time::Instant::now(),
+            shrink_iters: std::sync::atomic::AtomicU32::new(2500),
         }
     }
 
@@ -313,7 +316,7 @@ impl Session {
                         cases: per as u32,
                         failure_persistence: None,
                         rng_seed: RngSeed::Fixed(seed),
-                        max_shrink_iters: 2500,
+                        max_shrink_iters: self.shrink_iters.load(Ordering::Relaxed),
                         max_global_rejects: u32::MAX,
                         max_local_rejects: u32::MAX,
                         verbose: 0,
